@@ -251,6 +251,7 @@ class LabeledDirectedGraph {
         for (VertexIndex i : *this)
             adjacencyList[i].clear();
         edgeNumber = 0;
+        edgeLabels.clear();
     }
 
     /// Counts the number of in edges of \p vertex. @ref getInDegrees is more
